@@ -519,6 +519,9 @@ EXC_ALLOWLIST = {
     ("core", "EstimationMethod.set_time_metadata._time_md_array", "MetadataEncodingError"):
         "caught by the except clause of set_time_metadata that encloses every call of _time_md_array... the second "
         "call (after installing the default schema) cannot take this branch because the schema was just set",
+    ("core", "EstimationMethod.set_time_metadata._time_md_array", "MetadataValidationError"):
+        "non-mapping metadata rows: caught by the except clause of set_time_metadata on the first attempt; on the second "
+        "attempt the rows are the freshly cleared ({}) ones or the table had no metadata, so the guard cannot fire",
     ("prior", "ConditionalCoalescentTimes.add", "RuntimeError"):
         "API-misuse guard: MixturePrior always builds ConditionalCoalescentTimes with a non-zero table size when "
         "approximate priors are requested",
